@@ -1,12 +1,14 @@
-import LinfaSpec.Proofs.Tree
+import LinfaSpec.Proofs.TreeSweep
 
 /-!
 # C14 — decision trees are well-formed, honour their limits and predict leaf majorities
 
 Theorems about `LinfaSpec.Tree` (the model of `TreeNode::fit`, `prune`, `make_prediction`,
-`feature_importance`).  `fit P D ord p = some t` means: the call returns the tree `t`
+`feature_importance`, `iter_nodes`, `num_leaves`, `max_depth`).  `fit P D ord p = some t` means: the call returns the tree `t`
 (no `assert!` fired).  `ord` is the hash map's iteration order — every statement holds for
-every order.  Per-node statements use `ForallSplits` / `ForallLeaves`: the predicate holds at
+every order, and `fit_order_irrelevant` shows the tree does not depend on it.  The first group of
+theorems needs no hypothesis beyond `fit … = some t`; the second group (`Guards`) is over ordered
+fields and assumes the statement's guards (`min_weight_leaf > 0`, class indices `< K`).  Per-node statements use `ForallSplits` / `ForallLeaves`: the predicate holds at
 every split node / leaf *with the set of training rows that reach it* when each split sends
 `value <= split` to the left.
 -/
@@ -24,7 +26,7 @@ variable [Add β] [Sub β] [Mul β] [Div β] [Neg β] [LT β] [DecidableLT β]
 
 theorem fit_inv (P : Params α β) (D : Data α β) (ord : List Nat → List Nat) (p : Nat) (t : Tree.Tree α)
     (h : fit P D ord p = some t) :
-    ∃ u, fitNode P D ord (sortedAll D p) (D.n + 1) (allMask D) 0 = some u ∧ t = (prune u).1 := by
+    ∃ u, fitNode P D ord (sortedAll D p) (fitFuel P D) (allMask D) 0 = some u ∧ t = (prune u).1 := by
   unfold fit at h
   split at h
   · exact absurd h (by simp)
@@ -67,25 +69,16 @@ theorem split_sides_nonempty (P : Params α β) (D : Data α β) (ord : List Nat
   intro mask depth b _ _ _ hl hr
   exact ⟨hl, hr⟩
 
-/- Full statement (not proved): the reported decrease is
-`imp(rows of the node) - (wR/W * imp(rows with value > split) + wL/W * imp(rows with value <= split))`
-and both `wL, wR ≥ min_weight_leaf`.
-Proved below: the reported decrease and threshold are those of the sweep's best candidate,
-whose recorded left/right weights are `≥ min_weight_leaf` (`sweep_cand_minLeaf`) and whose score
-is computed from the sweep's running class weights.  Missing: the identification of the sweep's
-running left/right class weights (a sorted prefix / suffix, accumulated by `+=`/`-=`) with the
-class weights of `{value <= split}` / `{value > split}` — needs sortedness of `insSorted`,
-`Perm`-invariance of `sumS` and `parent - prefix = suffix` over a field.  The correspondence
-oracle recomputes exactly this on every fitted tree (clauses `decrease_actual`,
-`min_weight_leaf`). -/
-/-- the split a node reports is the best candidate of the sweep and the reported decrease is
-`cast(impurity(parent)) - cast(best score)` -/
-theorem reported_decrease_is_actual_partial (P : Params α β) (D : Data α β) (ord : List Nat → List Nat)
+/-- the split a node reports is the best candidate of the sweep (first of the minimal scores,
+features outer, sorted positions inner) and the reported decrease is
+`cast(impurity(parent)) - cast(best score)`; no hypothesis on the scalars.  That the score is the
+weighted impurity of the applied partition is `reported_decrease_is_actual` below. -/
+theorem reported_split_is_best_candidate (P : Params α β) (D : Data α β) (ord : List Nat → List Nat)
     (p : Nat) (t : Tree.Tree α) (h : fit P D ord p = some t) :
     ForallSplits D (fun m f s dec => ∃ b,
       pickBest (candidates P D (sortedAll D p) m (freqOf D (rowsOf m))) = some b ∧
       f = b.feat ∧ s = b.split ∧
-      dec = P.cast (impurity P (freqOf D (rowsOf m))) - P.cast b.score) (allMask D) t := by
+      dec = P.cast (impurity P (inLabelOrder D (freqOf D (rowsOf m)))) - P.cast b.score) (allMask D) t := by
   obtain ⟨u, hu, rfl⟩ := fit_inv P D ord p t h
   refine prune_forallSplits D _ _ _ (fitNode_forallSplits P D ord _ _ ?_ _ _ _ _ hu)
   intro mask depth b _ hb _ _ _
@@ -131,23 +124,23 @@ theorem routing_consistent (row : List α) (t : Tree.Tree α) :
 
 end generic
 
-/-- **each leaf of the unpruned tree predicts a weighted most frequent label of the training
-rows reaching it, and that label occurs among them** (`_partial`: stated for the tree before
-`prune`; for pruned leaves see `prune_keeps_mode`).  `hord`: the iteration order lists keys of
-the map only. -/
-theorem leaf_predicts_a_mode_partial {α β : Type}
+/-- each leaf of the *unpruned* tree predicts a maximal-weight class among the classes of its rows,
+and that label occurs among them — for any linear order on the weights, no sign condition
+(`leaf_predicts_a_mode` below is the statement for the fitted, pruned tree).  `hord`: the iteration
+order lists keys of the map only. -/
+theorem unpruned_leaf_predicts_a_mode {α β : Type}
     [Add α] [Sub α] [Div α] [Neg α] [LT α] [DecidableLT α] [LE α] [DecidableLE α] [OfNat α 0] [NatCast α]
     [LinearOrder β] [Add β] [Sub β] [Mul β] [Div β] [Neg β] [OfNat β 0] [OfNat β 1] [NatCast β]
     (P : Params α β) (D : Data α β) (ord : List Nat → List Nat)
     (hord : ∀ l c, c ∈ ord l ↔ c ∈ l) (p : Nat) (u : Tree.Tree α)
-    (hu : fitNode P D ord (sortedAll D p) (D.n + 1) (allMask D) 0 = some u) (hno : NoHalf u) :
+    (hu : fitNode P D ord (sortedAll D p) (fitFuel P D) (allMask D) 0 = some u) (hno : NoHalf u) :
     ForallLeaves D (fun m pred =>
       (∃ i ∈ rowsOf m, D.y i = pred) ∧
       ∀ c ∈ presentClasses D (rowsOf m), classWeight D (rowsOf m) c ≤ classWeight D (rowsOf m) pred)
       (allMask D) u := by
   refine fitNode_forallLeaves P D ord _ _ ?_ _ _ _ _ hu ?_ hno
   · intro mask pred hm
-    obtain ⟨h1, h2⟩ := modalOf_spec _ _ _ hm
+    obtain ⟨h1, h2⟩ := modalOf_spec _ _ _ _ hm
     rw [hord] at h1
     refine ⟨?_, fun c hc => h2 c ((hord _ _).mpr hc)⟩
     simp only [presentClasses, List.mem_filter, List.any_eq_true, beq_iff_eq] at h1
@@ -173,14 +166,14 @@ theorem prune_keeps_mode {β : Type} [LinearOrder β] [Add β] [AddLeftMono β] 
 def exP : Params Int Int :=
   { entropy := false, maxDepth := some 2, minSplit := 2, minLeaf := 1, minDec := 1, eps := 1,
     log2 := fun x => x, cast := id }
-def exD : Data Int Int := { xs := [[0], [2], [4], [6]], ys := [0, 0, 1, 1], ws := [], K := 2 }
-def exT : Tree.Tree Int := .node 0 1 1 1 0 (.leaf 0 1) (.node 0 3 1 1 1 (.leaf 0 2) (.leaf 1 2))
+def exD : Data Int Int := { xs := [[0], [2], [4], [6]], ys := [0, 0, 1, 1], ws := [], K := 2, lord := [0, 1] }
+def exT : Tree.Tree Int := .node 0 1 1 0 0 (.leaf 0 1) (.node 0 3 1 1 1 (.leaf 0 2) (.leaf 1 2))
 
 /-- hypothesis `fit P D ord p = some t` of `depth_le_max`, `split_min_samples`, `decrease_ge_min`,
-`split_sides_nonempty`, `reported_decrease_is_actual_partial` -/
+`split_sides_nonempty`, `reported_split_is_best_candidate` -/
 example : fit exP exD id 1 = some exT := by decide
-/-- hypotheses of `leaf_predicts_a_mode_partial` -/
-example : fitNode exP exD id (sortedAll exD 1) (exD.n + 1) (allMask exD) 0 = some exT ∧ NoHalf exT ∧
+/-- hypotheses of `unpruned_leaf_predicts_a_mode` -/
+example : fitNode exP exD id (sortedAll exD 1) (fitFuel exP exD) (allMask exD) 0 = some exT ∧ NoHalf exT ∧
     (∀ (l : List Nat) c, c ∈ id l ↔ c ∈ l) := by
   refine ⟨by decide, by simp [exT, NoHalf], fun _ _ => Iff.rfl⟩
 /-- the sweep of `sweep_cand_minLeaf` evaluates candidates -/
@@ -190,5 +183,185 @@ example : routePredict [3] exT = [false, true] ∧ predict [3] exT = 0 := by dec
 /-- `prune_keeps_mode`: weights (2,1) and (3,3), label 0 -/
 example : ∀ c, (fun c => if c = 0 then (2 : Int) else 1) c + (fun _ => (3 : Int)) c ≤ 2 + 3 := by
   intro c; by_cases h : c = 0 <;> simp [h]
+
+
+/-! ## Full statements over ordered fields (sweep = applied partition) -/
+
+section full
+variable {α β : Type} [Field α] [LinearOrder α] [IsStrictOrderedRing α]
+variable [Field β] [LinearOrder β] [IsStrictOrderedRing β]
+
+/-- the guards under which the full statements hold: the literal `1e-5` of the equal-value skip is
+positive, `min_weight_leaf` is positive (the statement's guard; `ParamGuard` does not check it),
+class indices are `< K` and `lord` lists the class indices `0..K-1` (in the label type's order) -/
+structure Guards (P : Params α β) (D : Data α β) : Prop where
+  eps_pos : 0 < P.eps
+  minLeaf_pos : 0 < P.minLeaf
+  classes : ∀ r, D.y r < D.K
+  lord : D.lord.Perm (List.range D.K)
+
+/-- **every split node has two children and no leaf keeps one**: the fitted tree consists of
+`leaf` and two-children `node` constructors only -/
+theorem split_has_two_children (P : Params α β) (D : Data α β) (ord : List Nat → List Nat) (p : Nat)
+    (t : Tree.Tree α) (g : Guards P D) (h : fit P D ord p = some t) : NoHalf t := by
+  obtain ⟨u, hu, rfl⟩ := fit_inv P D ord p t h
+  exact prune_noHalf u (fitNode_noHalf P D ord p g.eps_pos g.minLeaf_pos g.classes g.lord _ _ _ u
+    (length_allMask D) hu)
+
+/-- **each side of every split carries at least `min_weight_leaf` of training weight** — the
+weights of the rows actually routed left (`value <= split`) and right, not the sweep's running
+numbers -/
+theorem split_min_leaf_weight (P : Params α β) (D : Data α β) (ord : List Nat → List Nat) (p : Nat)
+    (t : Tree.Tree α) (g : Guards P D) (h : fit P D ord p = some t) :
+    ForallSplits D (fun m f s _ =>
+      ¬ rwS D (rowsOf (leftMask D m f s)) < P.minLeaf ∧
+      ¬ rwS D (rowsOf (rightMask D m f s)) < P.minLeaf) (allMask D) t := by
+  obtain ⟨u, hu, rfl⟩ := fit_inv P D ord p t h
+  refine prune_forallSplits D _ _ _ (fitNode_forallSplitsI P D ord _ (fun m => m.length = D.n)
+    (fun m f s hm => by rw [length_leftMask]; exact hm) (fun m f s hm => by rw [length_rightMask]; exact hm)
+    _ ?_ _ _ _ _ (length_allMask D) hu)
+  intro mask depth b hlen _ hb _ _ _
+  have hspec := candidates_spec P D mask p g.eps_pos g.classes g.lord hlen b (pickBest_mem _ _ hb)
+  exact ⟨hspec.wL ▸ hspec.minL, hspec.wR ▸ hspec.minR⟩
+
+/-- **the reported impurity decrease is the actual decrease of the criterion for the applied
+split**: impurity of the node's rows minus the weighted mean (by training weight) of the impurities
+of the rows routed right (`value > split`) and left (`value <= split`) -/
+theorem reported_decrease_is_actual (P : Params α β) (D : Data α β) (ord : List Nat → List Nat) (p : Nat)
+    (t : Tree.Tree α) (g : Guards P D) (h : fit P D ord p = some t) :
+    ForallSplits D (fun m f s dec =>
+      let share := rwS D (rowsOf (rightMask D m f s)) / rwS D (rowsOf m)
+      dec = P.cast (impurity P (inLabelOrder D (freqOf D (rowsOf m)))) -
+        P.cast (share * impurity P (inLabelOrder D (freqOf D (rowsOf (rightMask D m f s)))) +
+          (1 - share) * impurity P (inLabelOrder D (freqOf D (rowsOf (leftMask D m f s))))))
+      (allMask D) t := by
+  obtain ⟨u, hu, rfl⟩ := fit_inv P D ord p t h
+  refine prune_forallSplits D _ _ _ (fitNode_forallSplitsI P D ord _ (fun m => m.length = D.n)
+    (fun m f s hm => by rw [length_leftMask]; exact hm) (fun m f s hm => by rw [length_rightMask]; exact hm)
+    _ ?_ _ _ _ _ (length_allMask D) hu)
+  intro mask depth b hlen _ hb _ _ _
+  have hspec := candidates_spec P D mask p g.eps_pos g.classes g.lord hlen b (pickBest_mem _ _ hb)
+  simp only [decOf]
+  rw [hspec.score, hspec.fL, hspec.fR, hspec.wR]
+
+/-- **each leaf of the fitted (pruned) tree predicts a weighted most frequent label of the
+training rows reaching it, and that label occurs among them** (so only labels seen in training are
+predicted).  `hw`: sample weights are non-negative; `hord`: the iteration order lists the keys of
+the map. -/
+theorem leaf_predicts_a_mode (P : Params α β) (D : Data α β) (ord : List Nat → List Nat)
+    (hord : ∀ l c, c ∈ ord l ↔ c ∈ l) (p : Nat) (t : Tree.Tree α) (g : Guards P D)
+    (hw : ∀ i, 0 ≤ D.w i) (h : fit P D ord p = some t) :
+    ForallLeaves D (IsMode D) (allMask D) t := by
+  obtain ⟨u, hu, rfl⟩ := fit_inv P D ord p t h
+  have hno : NoHalf u := fitNode_noHalf P D ord p g.eps_pos g.minLeaf_pos g.classes g.lord _ _ _ u
+    (length_allMask D) hu
+  refine (prune_forallLeaves_mode D u _ hno ?_).1
+  refine fitNode_forallLeaves P D ord _ _ ?_ _ _ _ _ hu ?_ hno
+  · intro mask pred hm
+    obtain ⟨h1, h2⟩ := modalOf_spec _ _ _ _ hm
+    rw [hord] at h1
+    have hpres := h1
+    simp only [presentClasses, List.mem_filter, List.any_eq_true, beq_iff_eq] at h1
+    obtain ⟨_, i, hi, hy⟩ := h1
+    refine ⟨⟨i, hi, hy⟩, fun c => ?_⟩
+    by_cases hc : c ∈ presentClasses D (rowsOf mask)
+    · exact h2 c ((hord _ _).mpr hc)
+    · have : classWeight D (rowsOf mask) c = 0 := by
+        refine classWeight_absent D _ c ?_
+        intro r hr hyc
+        apply hc
+        simp only [presentClasses, List.mem_filter, List.mem_range, List.any_eq_true, beq_iff_eq]
+        exact ⟨hyc ▸ g.classes r, r, hr, hyc⟩
+      rw [this]
+      exact classWeight_nonneg D hw _ _
+  · intro f s dec p' d il c hc
+    rw [hc] at hno
+    exact hno
+
+end full
+
+section importance
+variable {α : Type} [Field α] [LinearOrder α] [IsStrictOrderedRing α]
+
+/-- **feature importances are non-negative and sum to one whenever the tree has a split**
+(features and weights in the same ordered field, `min_impurity_decrease > 0` — the guard of
+`ParamGuard`) -/
+theorem importances_nonneg_sum_one (P : Params α α) (D : Data α α) (ord : List Nat → List Nat) (p : Nat)
+    (t : Tree.Tree α) (g : Guards P D) (hmd : 0 < P.minDec) (h : fit P D ord p = some t)
+    (hsplit : ∃ f s dec pr d l r, t = Tree.Tree.node f s dec pr d l r) :
+    (∀ x ∈ importances t p, 0 ≤ x) ∧ sumS (importances t p) = 1 := by
+  have hno := split_has_two_children P D ord p t g h
+  have hdec : ForallSplits D (fun m f s dec => ¬ dec < P.minDec ∧ f < p) (allMask D) t := by
+    obtain ⟨u, hu, rfl⟩ := fit_inv P D ord p t h
+    refine prune_forallSplits D _ _ _ (fitNode_forallSplitsI P D ord _ (fun m => m.length = D.n)
+      (fun m f s hm => by rw [length_leftMask]; exact hm) (fun m f s hm => by rw [length_rightMask]; exact hm)
+      _ ?_ _ _ _ _ (length_allMask D) hu)
+    intro mask depth b hlen _ hb hd _ _
+    exact ⟨hd, (candidates_spec P D mask p g.eps_pos g.classes g.lord hlen b (pickBest_mem _ _ hb)).feat_lt⟩
+  refine importances_spec t p P.minDec hmd ?_ hsplit
+  intro n hn f s dec pr d l r he
+  obtain ⟨m', h1, h2⟩ := forallSplits_allNodes D _ t _ hno hdec n hn f s dec pr d l r he
+  exact ⟨not_lt.mp h1, h2⟩
+
+end importance
+
+section accessors
+variable {α β : Type}
+variable [Add α] [Sub α] [Div α] [Neg α] [LT α] [DecidableLT α] [LE α] [DecidableLE α]
+  [OfNat α 0] [NatCast α]
+variable [Add β] [Sub β] [Mul β] [Div β] [Neg β] [LT β] [DecidableLT β]
+  [OfNat β 0] [OfNat β 1] [NatCast β]
+
+/-- **`iter_nodes()` enumerates every node of the tree exactly once** (level order is a
+permutation of the preorder node list) -/
+theorem iter_nodes_enumerates (t : Tree.Tree α) : (iterNodes t).Perm (allNodes t) := iterNodes_perm t
+
+/-- **`num_leaves()` is the number of leaf-flagged nodes** -/
+theorem num_leaves_counts_leaves (t : Tree.Tree α) : numLeaves t = leafCount t := numLeaves_eq t
+
+/-- **`max_depth()` is the largest depth field, and it is at most the `max_depth` parameter** -/
+theorem max_depth_accessor (P : Params α β) (D : Data α β) (ord : List Nat → List Nat) (p : Nat)
+    (t : Tree.Tree α) (h : fit P D ord p = some t) :
+    (∀ n ∈ allNodes t, n.depthField ≤ maxDepthOf t) ∧
+    (∀ b, (∀ n ∈ allNodes t, n.depthField ≤ b) → maxDepthOf t ≤ b) ∧
+    (∀ m, P.maxDepth = some m → maxDepthOf t ≤ m) := by
+  refine ⟨depth_le_maxDepthOf t, maxDepthOf_le t, fun m hm => ?_⟩
+  exact maxDepthOf_le t m (depthOK_allNodes P.maxDepth m hm t 0 (depth_le_max P D ord p t h))
+
+end accessors
+
+/-- **the fitted tree does not depend on the iteration order of linfa's hash maps**: any two
+orders that list exactly the keys give the same tree -/
+theorem fit_order_irrelevant {α β : Type} [Field α] [LinearOrder α] [IsStrictOrderedRing α]
+    [Field β] [LinearOrder β] [IsStrictOrderedRing β]
+    (P : Params α β) (D : Data α β) (ord1 ord2 : List Nat → List Nat)
+    (h1 : ∀ l c, c ∈ ord1 l ↔ c ∈ l) (h2 : ∀ l c, c ∈ ord2 l ↔ c ∈ l)
+    (hlord : D.lord.Perm (List.range D.K)) (p : Nat) : fit P D ord1 p = fit P D ord2 p := by
+  unfold fit
+  rw [fitNode_order_irrelevant P D ord1 ord2 h1 h2 hlord]
+
+
+/-! ### non-vacuity of the full statements: a concrete fit over `Rat` that satisfies `Guards` -/
+
+def exPQ : Params Rat Rat :=
+  { entropy := false, maxDepth := some 2, minSplit := 2, minLeaf := 1, minDec := 1 / 100, eps := 1 / 100000,
+    log2 := fun x => x, cast := id }
+def exDQ : Data Rat Rat :=
+  { xs := [[0, 5], [2, 5], [4, 5], [6, 5]], ys := [0, 0, 1, 1], ws := [1, 2, 2, 1], K := 2, lord := [1, 0] }
+def exTQ : Tree.Tree Rat := .node 0 3 (1 / 2) 1 0 (.leaf 0 1) (.leaf 1 1)
+
+example : Guards exPQ exDQ :=
+  ⟨by norm_num [exPQ], by norm_num [exPQ], fun r => by
+      simp only [exDQ, Data.y]
+      rcases r with _ | _ | _ | _ | r <;> simp,
+    by simp only [exDQ]; exact List.Perm.swap 0 1 []⟩
+example : fit exPQ exDQ id 2 = some exTQ := by decide +kernel
+example : ∀ i, 0 ≤ exDQ.w i := by
+  intro i
+  simp only [exDQ, Data.w]
+  rcases i with _ | _ | _ | _ | i <;> simp
+example : 0 < exPQ.minDec := by norm_num [exPQ]
+example : importances exTQ 2 = [1, 0] := by decide +kernel
+example : numLeaves exTQ = 2 ∧ maxDepthOf exTQ = 1 ∧ featuresOf exTQ 2 = [0] := by decide +kernel
 
 end LinfaSpec.Props.C14
